@@ -26,9 +26,10 @@ def _factory(params, env=None):
         hist = []
         real = 0
         first = params.get("first")
+        prefix = params.get("prefix") or ([first] if first is not None else [])
         for k in range(params["nops"]):
-            if k == 0 and first is not None:
-                side, op = first
+            if k < len(prefix):
+                side, op = prefix[k]
             else:
                 side = e.choose("side", 2)
                 ops = OPS_EXT if params.get("ext") else OPS
@@ -112,6 +113,12 @@ def jobs(tier):
     for f, b, n, s, first in focus:
         out.append({"harness": "hist", "params": {"flavour": f, "base": b, "nops": n, "slots": s, "first": first},
                     "label": "%s/base%d/%dops/%dslots/first=%d:%s" % (f, b, n, s, first[0], first[1])})
+    if tier == "quick":
+        # three-operation shapes of the recorded findings F13 / F18 (two operations fixed, the third free)
+        for f in ("oid", "path"):
+            for pre in ([[0, "rename_a_b"], [0, "create_a"]], [[1, "rename_a_b"], [1, "create_a"]], [[0, "rendir_d_e"], [1, "rmdir_d"]], [[1, "rendir_d_e"], [0, "rmdir_d"]]):
+                out.append({"harness": "hist", "params": {"flavour": f, "base": 2, "nops": 3, "slots": 1, "prefix": pre, "ext": False},
+                            "label": "%s/base2/3ops/prefix=%s" % (f, "+".join("%d:%s" % (a, b) for a, b in pre))})
     # a folder taking a deleted file's name; one copy becoming unreadable while the other side has an unsynced edit
     for f in (("oid", "path") if tier == "quick" else ("oid", "path", "mixed")):
         for side in (0, 1):
